@@ -2794,7 +2794,9 @@ _old_unpacker = None
 
 def _unpack_nx_vendor (raw, offset):
   v = _unpack("!L", raw, offset + 8)[1][0]
-  if v != NX_VENDOR_ID:
+  length = _unpack("!H", raw, offset + 2)[1][0]
+  if v != NX_VENDOR_ID or length < 16:
+    # Not Nicira, or too short to carry a subtype
     return _old_unpacker(raw, offset)
   subtype = _unpack("!L", raw, offset+8+4)[1][0]
   if subtype == NXT_PACKET_IN:
